@@ -47,6 +47,7 @@
 import PdshVerif.Base.CInt
 import PdshVerif.Gen.Dsh
 import PdshVerif.Gen.Opt
+import PdshVerif.Gen.Optable
 
 namespace PdshVerif.Opt
 open PdshVerif
@@ -87,10 +88,10 @@ structure Defaults where
 def DFLT_FANOUT : Int := (Gen.DFLT_FANOUT : Int)
 def CONNECT_TIMEOUT : Int := (Gen.CONNECT_TIMEOUT : Int)
 
-/-- copies of the private macros of opt.c (compared with the source text by checks/c18.py on every run) -/
-def GEN_ARGS : Str := "hLNKR:M:t:cqf:w:x:l:u:bI:dVT:Q".toList
-def DSH_ARGS : Str := "Sk".toList
-def PCP_ARGS : Str := "pryzZe:".toList
+/-- the getopt strings: private macros of opt.c, read off its source text on every run (harness/consts/optable.c) -/
+def GEN_ARGS : Str := Gen.OT_GEN_ARGS.toList
+def DSH_ARGS : Str := Gen.OT_DSH_ARGS.toList
+def PCP_ARGS : Str := Gen.OT_PCP_ARGS.toList
 
 def optstring (p : Pers) : Str := GEN_ARGS ++ (if p.isPcp then PCP_ARGS else DSH_ARGS)
 
@@ -418,13 +419,28 @@ def execLoaded (d : Defaults) : Bool := "exec".toList ∈ d.rcmdModules
 
 /-- `nops` = number of operands left after the options; the named files are assumed to exist
     (regular source files; for rpdcp a destination directory) -/
-def optVerify (fx : Fixes) (d : Defaults) (p : Pers) (c : Cfg) (nops : Nat) : Bool :=
+def optVerifyPlain (fx : Fixes) (d : Defaults) (p : Pers) (c : Cfg) (nops : Nat) : Bool :=
   -- mod_postop: exec refuses a connect time-out
   let v1 := !(execLoaded d && c.rcmdName = some "exec".toList && c.connectTimeout ≠ CONNECT_TIMEOUT)
   let plain := !c.pcpServer && !c.pcpClient
   let v2 := !plain || (c.hasWcoll && c.connectTimeout ≥ 0 && c.commandTimeout ≥ 0 && (!fx.d4 || c.fanout ≥ 1))
   let v3 := !(p.isPcp && plain) || (nops ≥ 2 && !c.targetIsDir)
   v1 && v2 && v3
+
+/-- the undocumented pdcp server (-z) / client (-Z) modes: the PCP sanity checks of opt_verify on the operand count
+    (server: exactly the output file, not rpdcp; client: source files and the client host; never both) -/
+def optVerifyModes (p : Pers) (c : Cfg) (nops : Nat) : Bool :=
+  !(p.isPcp && c.pcpServer && c.pcpClient) &&
+  (!(p.isPcp && c.pcpServer) || (nops = 1 && p ≠ .rpdcp)) &&
+  (!(p.isPcp && c.pcpClient) || nops ≥ 2)
+
+def optVerify (fx : Fixes) (d : Defaults) (p : Pers) (c : Cfg) (nops : Nat) : Bool :=
+  optVerifyPlain fx d p c nops && optVerifyModes p c nops
+
+theorem optVerify_plain (fx : Fixes) (d : Defaults) (p : Pers) (c : Cfg) (nops : Nat)
+    (h1 : c.pcpServer = false) (h2 : c.pcpClient = false) :
+    optVerify fx d p c nops = optVerifyPlain fx d p c nops := by
+  simp [optVerify, optVerifyModes, h1, h2]
 
 /-! ### main -/
 
